@@ -21,7 +21,8 @@ Problems(r) ==
         (* a late answer that is not in time for pong_timeout: dropped after the first PING *)
         expd == IF late /\ Delay(r.pattern) >= r.pong THEN (r.ping + r.pong) * 1000 ELSE exp
         pt == PingTimes(r)
-    IN (IF ~r.pong_token_ok THEN {"own PING not answered with the same token"} ELSE {})
+    IN (IF "pre_ping" \in DOMAIN r /\ r.pre_ping THEN {"PING sent to a connection that has not registered"} ELSE {})
+       \cup (IF ~r.pong_token_ok THEN {"own PING not answered with the same token"} ELSE {})
        \cup (IF expd = 0 /\ r.dropped_at >= 0 THEN {"live client disconnected"} ELSE {})
        \cup (IF expd > 0 /\ expd + Slack <= r.window /\ r.dropped_at < 0 THEN {"dead client not disconnected in time"} ELSE {})
        \cup (IF expd > 0 /\ r.dropped_at >= 0 /\ r.dropped_at > expd + Slack THEN {"dead client disconnected too late"} ELSE {})
